@@ -208,6 +208,9 @@ def check(prop, tier, seed):
             for k in known:
                 if k.get("feat", "v3") == feat and k.get("witness"):
                     lines.append(k["witness"])
+                    # twin-compared properties: the witness needs its twin in the same run
+                    if prop == "C12" and "@1 " in k["witness"]:
+                        lines.append(k["witness"].replace("@1 ", "@0 ").replace("scribble=1", "scribble=0"))
             seen_ids = set()
             lines = [l for l in lines if not (l.split(" ", 1)[0] in seen_ids or seen_ids.add(l.split(" ", 1)[0]))]
             nlines += len(lines)
